@@ -1,4 +1,5 @@
 import Proofs.C18
+import Proofs.TieBuild
 #print axioms PV.Proofs.C18.kt_in_loop
 #print axioms PV.Proofs.C18.loops_in_order
 #print axioms PV.Proofs.C18.factor_ratio
@@ -6,3 +7,7 @@ import Proofs.C18
 #print axioms PV.Proofs.C18.factor_finish
 #print axioms PV.Proofs.C18.last_loop_temperature
 #print axioms PV.Proofs.C18.zero_stays_zero
+#print axioms PV.Proofs.Tie.declared_translated_build
+#print axioms PV.Proofs.Tie.build_inner_tie
+#print axioms PV.Proofs.Tie.build_kt_ratio_tie
+#print axioms PV.Proofs.Tie.build_loops_tie
